@@ -82,7 +82,8 @@ def build_vh(race=False, repo=None):
     never disturbs a check of /repo running at the same time."""
     repo = repo or REPO
     alt = os.path.abspath(repo) != os.path.abspath(os.environ.get("VERIF_REPO", "/repo"))
-    outdir = os.path.join(BUILD, "alt") if alt else BUILD
+    # (one directory per process: several self-tests may run at the same time)
+    outdir = os.path.join(BUILD, "alt-%d" % os.getpid()) if alt else BUILD
     os.makedirs(outdir, exist_ok=True)
     gm = os.path.join(outdir, "go.mod") if alt else os.path.join(HARNESS, "go.mod")
     want = _harness_gomod(repo)
